@@ -85,8 +85,9 @@ pub fn value_families(a: &Args, fmts: u8) -> Vec<(&'static str, Vec<Job>)> {
     v
 }
 
-/// `str64 <exp> <digits>` lines of the generated file: long integers given as digit strings.
-pub fn gap_jobs(path: &str) -> Vec<Job> {
+/// `str64 <exp> <digits> <kind>` lines of the generated file: long integers given as digit strings
+/// (GAPS, LIMB-EDGE, RIPPLE, POW2-POS; DESIGN.md 3.4).
+pub fn str64_entries(path: &str) -> Vec<(i32, Vec<u8>, &'static str)> {
     let text = std::fs::read_to_string(path).unwrap_or_default();
     let mut all: Vec<(i32, Vec<u8>, &'static str)> = Vec::new();
     for line in text.lines() {
@@ -95,12 +96,70 @@ pub fn gap_jobs(path: &str) -> Vec<Job> {
             continue;
         }
         if let (Some(e), Some(d)) = (it.next(), it.next()) {
-            let label = match it.next() { Some("limbedge") => "LIMB-EDGE", Some("ripple") => "RIPPLE", _ => "GAPS" };
+            let label = match it.next() {
+                Some("limbedge") => "LIMB-EDGE",
+                Some("ripple") => "RIPPLE",
+                Some("pow2pos") => "POW2-POS",
+                _ => "GAPS",
+            };
             if let Ok(e) = e.parse::<i32>() {
                 all.push((e, d.as_bytes().to_vec(), label));
             }
         }
     }
+    all
+}
+
+/// C10: every spelling of each structural digit string (and of its neighbours one unit away).
+pub fn str64_respell_jobs(path: &str) -> Vec<Job> {
+    let all = str64_entries(path);
+    let mut jobs: Vec<Job> = Vec::new();
+    for chunk in all.chunks(4) {
+        let chunk = chunk.to_vec();
+        jobs.push(Box::new(move |emit: &mut fam::Emit| {
+            for (e, d, _label) in &chunk {
+                fam::respell(emit, d, *e as i64, fam::MBOTH, 2);
+                fam::respell(emit, &fam::bump_last(d, true), *e as i64, fam::MBOTH, 1);
+            }
+        }));
+    }
+    jobs
+}
+
+/// C09: a sorted chain through each structural digit string: D-1 < D-1 + 0.5 < D = D (scientific) < D + 10^-25 < D+1.
+pub fn str64_chain_jobs(path: &str) -> Vec<Job> {
+    let all = str64_entries(path);
+    let mut jobs: Vec<Job> = Vec::new();
+    for chunk in all.chunks(8) {
+        let chunk = chunk.to_vec();
+        jobs.push(Box::new(move |emit: &mut fam::Emit| {
+            for (e, d, _label) in &chunk {
+                let e = *e;
+                let below = fam::bump_last(d, false);
+                let above = fam::bump_last(d, true);
+                let mut half = below.clone();
+                half.push(b'5');
+                let mut far = d.clone();
+                far.extend_from_slice(b"0000000000000000000000001");
+                if below.first() == Some(&b'0') || e < i32::MIN + 40 {
+                    continue;
+                }
+                emit(&fam::Case { int: &below, frac: b"", exp: e, fam: "CHAIN-STR^", fmts: fam::MBOTH, expect: None });
+                emit(&fam::Case { int: &half, frac: b"", exp: e - 1, fam: "CHAIN-STR", fmts: fam::MBOTH, expect: None });
+                emit(&fam::Case { int: d, frac: b"", exp: e, fam: "CHAIN-STR", fmts: fam::MBOTH, expect: None });
+                if d.len() > 1 && d.last() != Some(&b'0') {
+                    emit(&fam::Case { int: &d[..1], frac: &d[1..], exp: e + (d.len() as i32 - 1), fam: "CHAIN-STR", fmts: fam::MBOTH, expect: None });
+                }
+                emit(&fam::Case { int: &far, frac: b"", exp: e - 25, fam: "CHAIN-STR", fmts: fam::MBOTH, expect: None });
+                emit(&fam::Case { int: &above, frac: b"", exp: e, fam: "CHAIN-STR", fmts: fam::MBOTH, expect: None });
+            }
+        }));
+    }
+    jobs
+}
+
+pub fn gap_jobs(path: &str) -> Vec<Job> {
+    let all = str64_entries(path);
     let mut jobs: Vec<Job> = Vec::new();
     for chunk in all.chunks(8) {
         let chunk = chunk.to_vec();
@@ -262,8 +321,17 @@ fn replay_parse(rest: &[String]) -> ! {
     let show = format!("{}.{}e{}", run::abbrev(&int), run::abbrev(&frac), exp);
     match got {
         Ok(bits) => {
-            let ok = check(&v, f, bits);
+            let mut ok = check(&v, f, bits);
             println!("REPLAY cfg={} fmt={} input={} got={:#x} want={:#x} ok={}", real::cfg_name(), fmt, show, bits, want, ok);
+            // the same digits through Filter / TakeWhile iterators (inexact size hints)
+            for shape in 0..2u8 {
+                let alt = if fmt == "f32" { real::parse_lossy::<f32>(&int, &frac, exp, shape) } else { real::parse_lossy::<f64>(&int, &frac, exp, shape) };
+                let aok = matches!(alt, Ok(b) if check(&v, f, b));
+                if !aok {
+                    println!("REPLAY cfg={} fmt={} input={} through {} iterator got={:x?} want={:#x} ok=false", real::cfg_name(), fmt, show, ["filter", "take_while"][shape as usize], alt, want);
+                    ok = false;
+                }
+            }
             std::process::exit(if ok { 0 } else { 1 });
         },
         Err(m) => {
